@@ -164,6 +164,14 @@ theorem C10_json_value (v : Poor.Json.J) (h : Poor.Json.JOk v) :
     parseJsonRequest (Poor.Json.dumpBytes v) = some v :=
   JsonCodec.loadBytes_dumpBytes v h
 
+/-- **whatever spelling the client chose**: white space between the tokens, raw non-ASCII characters or escapes of
+    any style in strings, repeated keys - the request exposes the value the text denotes (`Txt v s`), it is not
+    refused.  `C10_json_value` is the instance `s = json.dumps(v)` (`Poor.Json.Txt_dump`). -/
+theorem C10_json_any_spelling {v : Poor.Json.J} {s : Str} (h : Poor.Json.Txt v s) (w1 w2 : Str)
+    (h1 : Poor.Json.AllWs w1) (h2 : Poor.Json.AllWs w2) :
+    parseJsonRequest (Poor.Headers.utf8enc (w1 ++ (s ++ w2))) = some v :=
+  JsonCodec.loadBytes_any_spelling h w1 w2 h1 h2
+
 /-! ### the body is never read beyond the declared length -/
 
 theorem streamRead_length_le (rest : Bytes) (n : Int) (h : 0 ≤ n) : (streamRead rest n).length ≤ n.toNat := by
